@@ -29,12 +29,12 @@ SizeFrom(degs, start, size, maxdeg) ==
 RECURSIVE Greedy(_, _, _)
 Greedy(degs, start, maxdeg) ==
   IF start >= Len(degs) THEN <<>>
-  ELSE LET sz == SizeFrom(degs, start, 0, maxdeg) IN <<<<start, sz>>>> \o Greedy(degs, start + sz, maxdeg)
+  ELSE LET sz == SizeFrom(degs, start, 0, maxdeg) IN << <<start, sz>> >> \o Greedy(degs, start + sz, maxdeg)
 
 MaxOf(degs) == degs[Len(degs)]                \* sorted ascending
 SingleGroup(degs, maxdeg) == MaxOf(degs) + Len(degs) - 1 <= maxdeg
 Admissible(degs, maxdeg) == SingleGroup(degs, maxdeg) \/ MaxOf(degs) < maxdeg     \* otherwise the code panics
-Groups(degs, maxdeg) == IF SingleGroup(degs, maxdeg) THEN <<<<0, Len(degs)>>>> ELSE Greedy(degs, 0, maxdeg)
+Groups(degs, maxdeg) == IF SingleGroup(degs, maxdeg) THEN << <<0, Len(degs)>> >> ELSE Greedy(degs, 0, maxdeg)
 
 GroupOf(gs, k) == CHOOSE j \in 1..Len(gs) : gs[j][1] <= k /\ k < gs[j][1] + gs[j][2]
 Members(g) == g[1]..(g[1] + g[2] - 1)
@@ -43,10 +43,10 @@ RECURSIVE Prod(_)
 Prod(S) == IF S = {} THEN 1 ELSE LET x == CHOOSE y \in S : TRUE IN (x * Prod(S \ {x})) % P
 Filter(gs, k, s) ==
   LET g == gs[GroupOf(gs, k)]
-      fs == {((i - s) % P + P) % P : i \in Members(g) \ {k}}
+      fs == {(((i - s) % P) + P) % P : i \in Members(g) \ {k}}
       base == Prod(fs)
       \* distinct factors could coincide mod P only if P <= Len: not here
-  IN IF Len(gs) > 1 THEN (base * (((UNUSED - s) % P + P) % P)) % P ELSE base
+  IN IF Len(gs) > 1 THEN (base * ((((UNUSED - s) % P) + P) % P)) % P ELSE base
 \* selector value seen by gate j's group on a row carrying gate k
 SelValue(gs, j, k) == IF GroupOf(gs, j) = GroupOf(gs, k) THEN k ELSE UNUSED
 
@@ -56,7 +56,8 @@ GroupsOk(degs, maxdeg, gs) ==
   /\ \A j \in 1..Len(gs) : gs[j][2] >= 1
   /\ \A j \in 1..(Len(gs) - 1) : gs[j][1] + gs[j][2] = gs[j + 1][1]
   /\ gs[Len(gs)][1] + gs[Len(gs)][2] = Len(degs)
-  /\ \A j \in 1..Len(gs) : gs[j][2] + degs[gs[j][1] + gs[j][2]] <= maxdeg      \* |G| + max degree in G
+  \* degree of a filtered constraint: (|G| - 1 factors, one more when there are several groups) + gate degree
+  /\ \A j \in 1..Len(gs) : gs[j][2] - 1 + (IF Len(gs) > 1 THEN 1 ELSE 0) + degs[gs[j][1] + gs[j][2]] <= maxdeg
 FiltersOk(degs, gs) ==
   \A k \in 0..(Len(degs) - 1) :
      /\ Filter(gs, k, SelValue(gs, k, k)) # 0
